@@ -20,6 +20,7 @@ import (
 	"strings"
 	"sync"
 	"testing"
+	"time"
 
 	"pgregory.net/rapid"
 )
@@ -103,6 +104,7 @@ type Recorder struct {
 	maxSamples int
 	notes      map[string]any
 	failed     bool
+	failedAt   time.Time
 	closed     bool
 }
 
@@ -235,6 +237,9 @@ func (r *Recorder) Violation(c any, format string, args ...any) string {
 	r.mu.Lock()
 	first := !r.failed
 	r.failed = true
+	if first {
+		r.failedAt = time.Now()
+	}
 	r.mu.Unlock()
 	if first {
 		fmt.Printf("VERIF-VIOLATION property=%s part=%s replay=%s\n", r.prop, r.part, path)
@@ -358,7 +363,21 @@ func rapidSetup(checks int, salt uint64) {
 func Check(t *testing.T, rec *Recorder, quick, thorough int, prop func(t *rapid.T)) {
 	t.Helper()
 	rapidSetup(Pick(quick, thorough), Hash(rec.prop, rec.part)%1000)
+	// rapid's shrink time limit is only consulted between passes; a property
+	// that takes seconds per execution could shrink for hours. Past the
+	// budget every further execution is skipped, which ends the shrinking
+	// (the violation marker and the replay file are already written).
+	budget := 45 * time.Second
+	if Thorough() {
+		budget = 150 * time.Second
+	}
 	rapid.Check(t, func(rt *rapid.T) {
+		rec.mu.Lock()
+		exhausted := rec.failed && time.Since(rec.failedAt) > budget
+		rec.mu.Unlock()
+		if exhausted {
+			rt.Skip("shrink budget exhausted")
+		}
 		defer func() {
 			if p := recover(); p != nil {
 				if isRapidControl(p) {
